@@ -4,6 +4,7 @@
   C05 mutation relations); each gets its own entry in `Verdict.props`.
 -/
 import GoNeat.Driver.Json
+import GoNeat.Driver.WFCheck
 import GoNeat.Model.Mutate
 import GoNeat.Model.Mate
 import GoNeat.Spec.WF
@@ -145,16 +146,27 @@ def mutationHandler (name : String) : Handler := fun j => do
       | "mutToggleEnable" => (MutationSpec.paramOnlyRel g implG).orElse (fun _ => MutationSpec.toggleRel g implG)
       | "mutGeneReEnable" => (MutationSpec.paramOnlyRel g implG).orElse (fun _ => MutationSpec.reenableRel weq g implG)
       | _ => MutationSpec.paramOnlyRel g implG
-  let c01 := if implErr.isSome then (true, "") else c01Result inputWF [g] implG implGJ
+  let inputWF1 := inputWF && decide (C01.TraitIdsNonzero g) && g.modules.isEmpty
+  let genesis := (fldStr out "genesis").toOption.getD ""
+  let c01 : Bool × String × String :=
+    if !inputWF1 then (true, "", "")
+    -- a well-formed input must not make a mutator fail
+    else if implErr.isSome then (false, "mutator failed on a well-formed genome: " ++ implErr.getD "", "wf:" ++ name ++ ":error:" ++ implErr.getD "")
+    else match c01Produced name [g] implG implGJ genesis with
+      | none => (true, "", "")
+      | some (why, sg) => (false, why, sg)
   let c03 := if implErr.isSome || !inputWF then (true, "") else c03Result g implG reg implReg
-  -- a well-formed input must not make a mutator fail
-  let c01 := if inputWF && implErr.isSome then (false, "mutator failed on a well-formed genome: " ++ implErr.getD "") else c01
   let changed := (jsonDiff "g" gj implGJ).isSome
   return { corr := corr, spec := c05.isNone && c01.1 && c03.1, nontrivial := inputWF && changed, cls := cls ++ ":" ++ family,
            detail := detail,
            props := [("C05", c05.isNone, c05.getD "", "mutation:" ++ name ++ ":" ++ c05.getD ""),
-                     ("C01", c01.1, c01.2, "wf:" ++ name),
+                     ("C01", c01.1, c01.2.1, c01.2.2),
                      ("C03", c03.1, c03.2, "innov:" ++ name)] }
+
+def mateName : CrossoverSpec.Method → String
+  | .multipoint => "mateMultipoint"
+  | .multipointAvg => "mateMultipointAvg"
+  | .singlePoint => "mateSinglePoint"
 
 def mateHandler (m : CrossoverSpec.Method) : Handler := fun j => do
   let inp ← fld j "in"
@@ -189,7 +201,7 @@ def mateHandler (m : CrossoverSpec.Method) : Handler := fun j => do
     let c01ok := !(inputWF && sameTraits)
     return { corr := corr, spec := parentsIntact && c01ok, nontrivial := false, cls := family ++ ":err", detail := detail,
              props := [("C04", parentsIntact, "parents modified", "mate:parents-modified"),
-                       ("C01", c01ok, "crossover failed on well-formed parents: " ++ implErr.getD "", "wf:mate-error")] }
+                       ("C01", c01ok, "crossover failed on well-formed parents: " ++ implErr.getD "", "wf:" ++ mateName m ++ ":error:" ++ implErr.getD "")] }
   | some cj =>
     let c ← parseGenome cj
     let (corr, detail) : Bool × String :=
@@ -209,15 +221,21 @@ def mateHandler (m : CrossoverSpec.Method) : Handler := fun j => do
       else CrossoverSpec.check bitEq m p1 p2 c f1 f2
     -- K1: single-point crossover of parents without a common first gene may return a gene-less child
     let sharedHead := (p1.genes.head?.map (·.inn)) == (p2.genes.head?.map (·.inn))
-    let c01 := c01Result inputWF [p1, p2] c cj
-    let c01sig := if m == .singlePoint && !sharedHead && c.genes.isEmpty then "K1:singlepoint-no-shared-first-gene:empty-child" else "wf:mate"
+    let _ := sharedHead
+    let genesis := (fldStr out "genesis").toOption.getD ""
+    let inputWF1 := inputWF && decide (C01.TraitIdsNonzero p1) && decide (C01.TraitIdsNonzero p2)
+    let c01 : Bool × String × String :=
+      if !inputWF1 then (true, "", "")
+      else match c01Produced (mateName m) [p1, p2] c cj genesis with
+        | none => (true, "", "")
+        | some (why, sg) => (false, why, sg)
     let _ := sameLineage
     let nontriv := inputWF && c.genes.length ≥ 2 &&
       (p1.genes.any (fun x => !p2.genes.any (·.inn == x.inn)) || p2.genes.any (fun x => !p1.genes.any (·.inn == x.inn))) &&
       (p1.genes.any (fun x => !x.en) || p2.genes.any (fun x => !x.en))
     return { corr := corr, spec := c04.isNone && c01.1, nontrivial := nontriv, cls := family, detail := detail,
              props := [("C04", c04.isNone, c04.getD "", "mate:" ++ c04.getD ""),
-                       ("C01", c01.1, c01.2, c01sig)] }
+                       ("C01", c01.1, c01.2.1, c01.2.2)] }
 
 def operatorOps : List (String × Handler) :=
   (["mutAddNode", "mutAddLink", "mutConnectSensors", "mutLinkWeights", "mutRandomTrait", "mutLinkTrait", "mutNodeTrait",
